@@ -1,4 +1,5 @@
 import Bgpfu.Model.BuildSpec
+import Bgpfu.Lemmas.CapsExact
 /-! Helper lemmas for C09 (`Bgpfu.Thm.C09`): fold invariants, the bridge between the code's
 `Requirements.check` and the RFC table's `Requirement.check`, and one safety lemma per builder. -/
 set_option linter.unusedSimpArgs false
